@@ -40,6 +40,8 @@ class C01(Prop):
             entry = rng.choice(ENTRIES)
             spec = rng.choice(specs) if entry in ('settings', 'override') else ''
             out.append(self.make(g, t, spec, entry))
+        for g, t in gens.g_groups(rng, None):
+            out.append(self.make(g, t, '', 'settings'))
         for g, t in gens.g_malformed(rng, 300 if tier == 'quick' else 5000):
             out.append(self.make(g, t, '', rng.choice(ENTRIES)))
         return out
